@@ -555,7 +555,7 @@ def _worker(engine_mod, config, exe, prop, seed, tier, wid, nworkers, nruns, dea
             out = Outcome()
             todo = plan
             status = 'ok'
-            if getattr(eng, 'FRESH_EVERY', 0) and (i // nworkers) % eng.FRESH_EVERY == 0 and agg['runs'] > 0:
+            if agg['runs'] > 0 and ((getattr(eng, 'FRESH_EVERY', 0) and (i // nworkers) % eng.FRESH_EVERY == 0) or '\n# fresh-process\n' in plan):
                 # a brand-new executor process for this plan: whatever the library initialises lazily, once per
                 # process, is initialised again - under this plan's schedule
                 ex.close()
